@@ -12,7 +12,7 @@ class C01(pure.Spec):
     theorems = ["C01_pipe_prefix", "C01_pipe_eof_complete", "C01_pipe_completes", "C01_reply_to_originator",
                 "C01_distinct_clients_distinct_ids", "C01_reply_only_to_registered", "C01_add_client_inv",
                 "C01_prune_inv", "C01_pruned_reply_dropped", "C01_udp_reply_header_strippable",
-                "C01_bridge_is_relay", "C01_bridge_moves_are_pipe_moves"]
+                "C01_bridge_is_relay", "C01_bridge_moves_are_pipe_moves", "C01_stream_is_relay"]
     crate = "app"
     binary = "vh-app"
     design_ref = "DESIGN.md §5 C01"
@@ -28,8 +28,9 @@ class C01(pure.Spec):
             "got. Compared exactly with what a direct connection shows (Tunnel/Direct.v). Cells = (entry, shape set).")
     assumptions = ["sampled scripts on loopback under the real runtime's interleavings; the kernel's TCP/UDP/Unix sockets are trusted",
                    "the per-relay specification used by the composition theorem (each relay forwards a prefix in order and passes "
-                   "EOF on after draining) is proved of the bridge model (C01_bridge_is_relay); for the logical stream it is what "
-                   "C02/C05 state on Flow/Core.v - that instantiation is argued, not mechanised"]
+                   "EOF on after draining) is proved of the bridge model (C01_bridge_is_relay) and of each direction of the "
+                   "logical stream model Flow/Core.v (C01_stream_is_relay, abort-free runs); gluing the component pipelines into one "
+                   "(the hop a bridge writes into IS the hop the stream reads from) is by construction of the statements, not a further theorem"]
 
     def build(self, tier):
         C.cargo_build(os.path.join(C.VERIF, "harness", "app"), "release")
